@@ -35,8 +35,8 @@ MP_ACCEPT, MP_VIOLATE = mpf(10) ** -35, mpf(10) ** -20
 F_ACCEPT = mpf(10) ** -9
 MARGIN = mpf(10) ** -25
 FMARGIN = mpf(10) ** -6
-DRAWS_MP = {"quick": 8, "thorough": 150}
-DRAWS_F = {"quick": 6, "thorough": 60}
+DRAWS_MP = {"quick": 14, "thorough": 800}
+DRAWS_F = {"quick": 8, "thorough": 300}
 NSHARDS = {"quick": 32, "thorough": 64}
 SHARD_TIMEOUT = {"quick": 900, "thorough": 7200}
 
